@@ -136,10 +136,17 @@ Cone(e) ==
   LET X == SeqSet(e.info.edited)
       ex == {"step:" \o x : x \in SeqSet(e.info.executed)}
       cone == ConeFix(e, X, ex, {})
-  IN {<<"executed_outside_cone", s>> : s \in ex \ cone}
+      \* F26: a step with dynamic dependencies below a re-executed plan (declared by a skipped sub-plan
+      \* that the executed plan re-declares) is validated while the plan is still re-declaring the static
+      \* files it uses; the validation fails and the step is executed although nothing it uses changed
+      RECURSIVE UnderCone(_, _)
+      UnderCone(s, fuel) == fuel > 0 /\ \E c \in UCreator(e, s) : c \in cone \/ UnderCone(c, fuel - 1)
+      val == {"step:" \o x : x \in SeqSet(e.info.validated)}
+  IN {<<"executed_outside_cone", s,
+        IF s \in val /\ UnderCone(s, 4) THEN "F26-validated-below-a-rerunning-plan-reruns" ELSE "">> : s \in ex \ cone}
 
 (* C05 *)
-CrashEquiv(e) ==
+CrashDiff(e) ==
   (IF RcClass(e.a.rc) # RcClass(e.b.rc) THEN {<<"restart_outcome_differs", <<e.a.rc, e.b.rc>>>>} ELSE {})
   \cup (IF Success(e.a.rc) /\ Success(e.b.rc)
         THEN {IF c[1] = "output_content_differs" /\ c[2] \in SeqSet(e.info.lost_queue)
@@ -156,6 +163,14 @@ CrashEquiv(e) ==
   \cup {<<"restart_raised", x>> : x \in SeqSet(e.info.errors)}
 
 (* C14 *)
+\* F25 seen through this relation: in the restarted (or the reference) build a step was executed twice
+\* concurrently after its creator re-defined it while its job was in flight; the second completion finds
+\* the output already BUILT (ConsistencyError), so the outcome of that build is not the reference's
+CrashEquiv(e) ==
+  IF e.info.double_exec # <<>>
+  THEN {<<c[1], c[2], "F25-double-execution-in-restarted-build">> : c \in CrashDiff(e)}
+  ELSE CrashDiff(e)
+
 \* F17 seen through this relation: when a plan edit moves a step between plans, whether the build
 \* fails depends on the schedule (see StaleDefinerConflict), not on watching versus restarting
 WatchDiff(e) ==
